@@ -161,7 +161,7 @@ def main(argv=None):
     viol_lines = []
     if unknown:
         os.makedirs(rdir, exist_ok=True)
-        for e in unknown[:20]:
+        for e in unknown[:int(os.environ.get("VERIF_MAXVIOL", "20"))]:
             path = os.path.join(rdir, core.digest(core.canon(e['sig'])) + '.json')
             with open(path, 'w') as f:
                 json.dump({'property': prop, 'seed': seed, 'tier': a.tier, 'signature': e['sig'], 'count': e['n'],
